@@ -180,7 +180,24 @@ func ParseContractFile(path, pkgPath string) (cf *ContractFile, err error) {
 				}
 				// name [ (params) [ (results) ] ]
 				name := rest
-				if k := strings.Index(rest, "("); k >= 0 {
+				skip := 0
+				if strings.HasPrefix(rest, "(") {
+					// receiver form "(*pkg.T).Method(params)": the name extends past the first group
+					depth := 0
+					for i, ch := range rest {
+						if ch == '(' {
+							depth++
+						} else if ch == ')' {
+							depth--
+							if depth == 0 {
+								skip = i + 1
+								break
+							}
+						}
+					}
+				}
+				if k := strings.Index(rest[skip:], "("); k >= 0 {
+					k += skip
 					name = strings.TrimSpace(rest[:k])
 					groups := parenGroups(rest[k:])
 					if len(groups) > 0 {
